@@ -26,6 +26,7 @@ SHARDS = {"quick": 2, "thorough": 16}
 MIN_REACH = {
     "batches_under_a_changed_decimal_context": {"quick": 2, "thorough": 200},
     "batches_with_numpy_scalar_arguments": {"quick": 2, "thorough": 200},
+    "pairs_formatted_twice_as_zero_dimensional_arrays": {"quick": 1500, "thorough": 100000},
     "contract_evals_in_domain": {"quick": 15000, "thorough": 1500000},
     "via_repr_or_estimate": {"quick": 50, "thorough": 500},
     "repr_strings_read_back": {"quick": 30, "thorough": 300},
@@ -153,10 +154,31 @@ def run_case(ctx, case):
     as_numpy = case.get("batch") is not None and case["batch"] % 6 == 5
     if as_numpy:
         ctx.count("batches_with_numpy_scalar_arguments")
+    as_0d = case.get("batch") is not None and case["batch"] % 6 == 3
+    if as_0d:
+        ctx.count("batches_with_zero_dimensional_array_arguments")
     for x, err in pairs:
         try:
             xa = int(x) if case["gen"] == "small_ints" and x.is_integer() else x
             ea = err
+            if as_0d:
+                # value and error as 0-d arrays (what DataArray.values / np.asarray(scalar) give), the same objects
+                # formatted twice (a table printed again): same text, and the caller's arrays are left as they were
+                xa, ea = np.array(float(x)), np.array(float(err))
+                r1_ = fmt(xa, ea)
+                r2_ = fmt(xa, ea)
+                if float(xa) != float(x) or float(ea) != float(err):
+                    ctx.violation({"gen": "explicit", "pairs": [[x.hex(), err.hex()]], "x": repr(x), "err": repr(err)},
+                                  "formatting changed the caller's 0-d arrays: (%r, %r) became (%r, %r)" % (x, err, float(xa), float(ea)),
+                                  {"api": "format_number_with_error", "oracle": "arguments-untouched", "stratum": _stratum(x, err)})
+                    nviol += 1
+                elif r1_ != r2_:
+                    ctx.violation({"gen": "explicit", "pairs": [[x.hex(), err.hex()]], "x": repr(x), "err": repr(err)},
+                                  "the same arrays formatted twice read %r, then %r" % (r1_, r2_),
+                                  {"api": "format_number_with_error", "oracle": "repeatable", "stratum": _stratum(x, err)})
+                    nviol += 1
+                ctx.count("pairs_formatted_twice_as_zero_dimensional_arrays")
+                continue
             if as_numpy:
                 xa = np.int64(xa) if isinstance(xa, int) and abs(xa) < 2 ** 62 else np.float64(xa)
                 ea = np.float64(err)
